@@ -91,6 +91,7 @@ theorem step_ok {j : FJ} (hi : Inv j) (hver : j.ver.length ≤ 8) (op : Op) (hok
   | timer =>
     obtain ⟨a1, a2, a3, a4, a5⟩ := timer_ok hi
     refine ⟨_, _, rfl, a1, a2, a3, a5, Or.inl a4, ?_⟩
+    show j.timer.1.ver = j.ver
     unfold FJ.timer; split <;> rfl
   | reopen =>
     refine ⟨_, [], openDisk_of_DInv j.ver hi.1, ⟨hi.1, rfl⟩, rfl, rfl,
@@ -266,6 +267,32 @@ theorem set_timer_persists {S l j} (hr : Reach S l j) (v : Nat) :
     simp [FJ.step, FJ.timer, applyPrims, applyPrim]
   have hd2 : DInv ({ j.disk with metaFile := some v, tmp := .absent } : Disk).file j.entries := hd
   exact ⟨_, _, _, _, _, rfl, h2, openDisk_of_DInv j.ver hd2, rfl, hr.ents⟩
+
+/-- The constructor does not look at `<journal>.tmp`. -/
+theorem openDisk_jtmp (ver : Bytes) (d : Disk) (x : Option Bytes) :
+    openDisk ver { d with jtmp := x } = match openDisk ver d with
+      | .error e => .error e
+      | .ok (a, ps) => .ok ({ a with disk := { a.disk with jtmp := x } }, ps) := by
+  unfold openDisk
+  by_cases h0 : d.file.length = 0
+  · simp [h0]
+  · by_cases h1 : d.file.length < INITIAL_SIZE
+    · simp only [h0, h1, if_false, if_true, applyPrims, List.foldl_cons, List.foldl_nil, applyPrim]
+      cases rdU32 (resizeFile d.file INITIAL_SIZE) LAST_RECORD_OFFSET_OFFSET with
+      | none => rfl
+      | some last =>
+        simp only
+        cases scan (resizeFile d.file INITIAL_SIZE) last FIRST_RECORD_OFFSET with
+        | error e => rfl
+        | ok r => rfl
+    · simp only [h0, h1, if_false, applyPrims, List.foldl_nil]
+      cases rdU32 d.file LAST_RECORD_OFFSET_OFFSET with
+      | none => rfl
+      | some last =>
+        simp only
+        cases scan d.file last FIRST_RECORD_OFFSET with
+        | error e => rfl
+        | ok r => rfl
 
 theorem padTo_length (bs : Bytes) (n : Nat) (h : bs.length ≤ n) : (padTo bs n).length = n := by
   simp [padTo, zeros]; omega
